@@ -8,6 +8,7 @@ import (
 	"reflect"
 	"strconv"
 	"strings"
+	"unicode/utf8"
 
 	"github.com/alecthomas/participle/v2"
 	"github.com/alecthomas/participle/v2/lexer"
@@ -174,6 +175,20 @@ func quoteLit(e *Expr) string {
 		}
 	}
 	switch {
+	case e.Style%3 == 1 && !strings.ContainsAny(e.S, `'"`) && e.S != "" && utf8.ValidString(e.S) && (!plain || strings.Contains(e.S, `\`) || (e.Style == 4 && !isASCII(e.S))):
+		// single quotes around Go escapes: '\t', 'a\\b', and (style 4) the bytes of non-ASCII text one by one: '\xc3\xa9'
+		var sb strings.Builder
+		for i := 0; i < len(e.S); i++ {
+			switch b := e.S[i]; {
+			case b == '\\':
+				sb.WriteString(`\\`)
+			case b < 0x20 || b == 0x7f || (b >= 0x80 && e.Style == 4):
+				fmt.Fprintf(&sb, `\x%02x`, b)
+			default:
+				sb.WriteByte(b)
+			}
+		}
+		s = "'" + sb.String() + "'"
 	case !plain:
 		s = strconv.Quote(e.S)
 	case e.Style%3 == 1 && !strings.ContainsAny(e.S, `'\`) && e.S != "":
@@ -190,6 +205,15 @@ func quoteLit(e *Expr) string {
 }
 
 func isLeaf(e *Expr) bool { return e.Kind == KLit || e.Kind == KRef }
+
+func isASCII(s string) bool {
+	for i := 0; i < len(s); i++ {
+		if s[i] >= 0x80 {
+			return false
+		}
+	}
+	return true
+}
 
 // toks renders e as tag tokens. first: no term precedes e directly (so a leading `!` cannot be
 // mistaken for the non-empty modifier of the previous term).
